@@ -285,7 +285,7 @@ static inline void ctx_{prefix}_drop({ty} *self) {{
             }),
             (&container_ty, cont, container_wrappers.is_some()),
             (&context, ctx, context_wrappers.is_some()),
-            (&this_ty, &[]),
+            (&this_ty, &["vtbl"]),
             &mut generated_funcs,
             config,
         );
@@ -306,9 +306,16 @@ static inline void ctx_{prefix}_drop({ty} *self) {{
     let mut group_func_traits: HashMap<(String, String), HashMap<String, HashSet<String>>> =
         HashMap::new();
 
+    // Vtable fields of every group, which a wrapper that returns a new group has to fill in.
+    let mut group_vtbl_fields: HashMap<(String, String), Vec<String>> = HashMap::new();
+
     for (t, cont, second_half, _, _, funcs) in &group_vtbls {
         let container_ty = format!("struct {}Container_{}", cont, second_half);
         let vtbl = Vtable::new(t.to_string(), funcs, &container_ty)?;
+        group_vtbl_fields
+            .entry((cont.clone(), second_half.clone()))
+            .or_default()
+            .push(format!("vtbl_{}", t.to_lowercase()));
         let entry = group_func_traits
             .entry((cont.clone(), second_half.clone()))
             .or_default();
@@ -334,6 +341,10 @@ static inline void ctx_{prefix}_drop({ty} *self) {{
             })
             .unwrap_or_default();
         let trait_prefix = format!("{}_{}", cont, t);
+        let vtbl_fields = group_vtbl_fields
+            .get(&(cont.clone(), second_half.clone()))
+            .map(|v| v.iter().map(String::as_str).collect::<Vec<_>>())
+            .unwrap_or_default();
 
         let vtbl = Vtable::new(t, &funcs, &container_ty)?;
 
@@ -359,7 +370,7 @@ static inline void ctx_{prefix}_drop({ty} *self) {{
             ("", &|_| Some(&cont)),
             (&container_ty, inner, container_wrappers.is_some()),
             (&context, ctx, context_wrappers.is_some()),
-            (&this_ty, &[]),
+            (&this_ty, &vtbl_fields),
             &mut generated_funcs,
             config,
         );
@@ -389,7 +400,7 @@ static inline void ctx_{prefix}_drop({ty} *self) {{
                 }),
                 (&container_ty, inner, container_wrappers.is_some()),
                 (&context, ctx, context_wrappers.is_some()),
-                (&this_ty, &[]),
+                (&this_ty, &vtbl_fields),
                 &mut generated_funcs,
                 config,
             );
